@@ -39,6 +39,10 @@ CLAIMED = {
          'deterministic simulation: seeded histories of client operation cycles with acknowledgements in drawn order and seeded schedules; table-size invariant read through hook H5 at quiescence',
          'Seeded search over histories of {call, batch, notification, subscribe accepted/refused/malformed/duplicate id, unsubscribe, drop, server-side close, lag-closure, notification-handler register/unregister/lag} run by 1-3 concurrent front-end tasks against a peer that acknowledges everything in drawn order; once the simulator reports quiescence all four internal tables must be empty and a later message bearing an identifier of finished work must leave no state. Sampling, not enumeration.',
          'A task poll is atomic; table sizes come from hook H5 (weak handle); scripted peer.'),
+ 'C19': ('exploration', 'srvsim', 'DESIGN.md §8 C19',
+         'deterministic simulation: the HTTP request body is a simulator-owned frame stream (arbitrary frame sequences, Pending and virtual delays between frames, trailers, with/without Content-Length) or travels through hyper with chunked encoding over a fragmenting simulated stream; differential oracle against the same bytes in one frame',
+         'Seeded search over methods, content-type spellings and body frame sequences (1-7 frames incl. empty and whitespace-only ones, cut points biased to the sniffing window) and delivery timing; non-POST must give 405, non-JSON content types 415 with no handler run; an accepted request must get the same status and body as the same bytes sent as one frame with Content-Length. Sampling, not enumeration.',
+         'A task poll is atomic; when hyper drops the connection after an early error response only the status is compared.'),
  'C03': ('exploration', 'clisim', 'DESIGN.md §8 C03',
          'deterministic simulation: seeded task-gate scheduler + scripted adversarial peer, payload-nonce attribution oracle',
          'Seeded search over schedules of the real async client (front-end futures vs. send/read/shutdown tasks) and over answer orders/duplications of a scripted peer; every completion is attributed through unique nonces to the response carrying the id that request put on the wire. Sampling, not enumeration.',
